@@ -310,13 +310,14 @@ def produced (h pn sn : String) (base : Nat) : Nat → List Msg
   | n + 1 => ⟨base, [], none, false, false, h, pn, sn⟩ :: produced h pn sn (base + 1) n
 
 /-- one message through a Router handler `h` whose publisher and subscriber are decorated `kp` / `ks` times with the
-    metrics decorators and whose handler function is wrapped once by the metrics middleware
-    (`handler.handleMessage` + `publishProducedMessages`) -/
-def routerStep (h pn sn : String) (kp ks : Nat) (i : Nat) (o : Outcome) (w : RWorld) : RWorld :=
+    metrics decorators and whose handler function is wrapped `km` times by the metrics middleware
+    (`handler.handleMessage` + `publishProducedMessages`).  The middleware carries no "already observed" mark:
+    every application observes the invocation it wraps (error and panic pass through all of them). -/
+def routerStep (h pn sn : String) (kp ks km : Nat) (i : Nat) (o : Outcome) (w : RWorld) : RWorld :=
   -- the router's own context decorator sits below the subscriber decorators
   let inc : Msg := ⟨i, [], none, false, false, h, pn, sn⟩
   let d := deliver sn (nSubMetrics ks) inc
-  let w1 := { w with hobs := w.hobs ++ [handlerObs h o] }
+  let w1 := { w with hobs := w.hobs ++ List.replicate km (handlerObs h o) }
   let (settle, pw) : Settle × PWorld :=
     match o with
     | .ok 0 => (.ack, w1.pw)
@@ -328,8 +329,8 @@ def routerStep (h pn sn : String) (kp ks : Nat) (i : Nat) (o : Outcome) (w : RWo
   { w1 with pw := pw, settles := w1.settles ++ [settle],
             sobs := w1.sobs ++ subCounts (fun _ => settle) d.2 }
 
-def routerRun (h pn sn : String) (kp ks : Nat) : Nat → List Outcome → RWorld → RWorld
+def routerRun (h pn sn : String) (kp ks km : Nat) : Nat → List Outcome → RWorld → RWorld
   | _, [], w => w
-  | i, o :: rest, w => routerRun h pn sn kp ks (i + 1) rest (routerStep h pn sn kp ks i o w)
+  | i, o :: rest, w => routerRun h pn sn kp ks km (i + 1) rest (routerStep h pn sn kp ks km i o w)
 
 end Wm.Decor
